@@ -307,6 +307,11 @@ func (u *UntrustedInputChecker) OnVisitNodeLeave(n ExprNode) {
 	if u.safeCalls > 0 {
 		if f, ok := n.(*FuncCallNode); ok && isSafeFuncCall(f) {
 			u.safeCalls--
+			if u.safeCalls == 0 {
+				// Like any other function call, it ends the property access chain visited before it.
+				// Otherwise the chain would be continued by accesses to the call's result
+				u.end()
+			}
 		}
 		return
 	}
